@@ -126,6 +126,11 @@ func init() {
 			{ID: "C03.R3", Doc: "literal cascade null < int(platform size) < float(64, every configuration) < bool", Run: func(c *Ctx) { cascadeRule(c, "C03.R3") }},
 			{ID: "C03.R4", Doc: "a raw, correctly encoded U+FFFD (and every valid rune) passes the UTF-8 guard", Run: func(c *Ctx) { utf8GuardRule(c, "C03.R4", false, true) }},
 			{ID: "C03.R5", Doc: "wrappers start at strings.Index(json, root bracket), pass json[start:], return the machine's (root, err)", Run: func(c *Ctx) { wrapperRule(c, "C03.R5") }},
+			{ID: "C03.R7", Doc: "the events of the machines are applied by Add (appends parseVal(v) at the end, in order) and Set (plain map assignment of parseVal(v)) (= C05.R5 for Add, C06.R1)", Run: func(c *Ctx) {
+				n := runAs(c, "C03.R7", c05Sequence, func(o *Obligation) bool { return strings.Contains(o.Construct, "(*list).Add/") })
+				n += runAs(c, "C03.R7", c06Set, nil)
+				c.R.Floor("C03.R7", n, 3)
+			}},
 			{ID: "C03.R6", Doc: "duplicate keys: Set events are applied in document order by plain map assignment (last wins)", Run: func(c *Ctx) { c06Set(cWithRule(c)) }},
 		},
 	})
